@@ -18,6 +18,12 @@ Identity forests in which 2-4 hit-bearing trees / subtrees are deep copies of ea
          model WITHOUT any identity (content only) and the model answers with positions (paths), which are mapped
          back to the hidden indexes: identical content must never collapse nodes.  Entry.__eq__/__hash__ on
          distinct identical nodes is recorded in the evidence, not assumed.
+Case     the alphabets of the boolean stream and of the select / find / [] streams (names, attribute values, predicate
+         arguments) contain families of case variants on which lower(), upper() and casefold() differ or change the
+         length (straße/STRASSE/STRAẞE, ſ, Σ/σ/ς incl. final sigma, İ/ı/i, ﬁ ﬂ ﬀ ﬃ, ǅ, ŉ, Kelvin, Ångström).  The
+         reference is the implementation's contract: str.lower() on the tested value, on the stored argument and in
+         the generated source.  The Lean model does not lower-case: Env.lower is a parameter, the driver looks the
+         strings of a request up in the table the harness sends with it (lower_table).
 Values   literal name / attribute queries compare by VALUE whatever the provenance of the objects: every forest is
 (names)  queried as constructed, after pickle.loads(pickle.dumps(..)) and after copy.deepcopy, with names / attributes
          given to the constructor or assigned afterwards as run-time built strs, equal floats and str-subclass
@@ -55,6 +61,22 @@ CORPUS = os.path.join(VERIF, "corpus", "C20")
 
 STRS = ["a", "b", "A", "B", "ab", "Ab", "aB", "c", "", "x", "X", "xy", "Xy", "/var", "/VAR/www", "É", "éa", "1", "80"]
 NAMES = ["a", "b", "A", "B", "ab", "c", "a", "b"]
+# strings on which lower(), upper() and casefold() differ from each other or change the length, in mixed-case
+# variants: sharp s (small, capital), long s, the three sigmas (lower() of a final capital sigma is the final form),
+# dotted capital I (lower() is TWO characters) / dotless i, ligatures, the titlecase digraph, n-apostrophe,
+# Kelvin sign and Angstrom sign.  The implementation's contract is str.lower() on both sides.
+CASE_FAMILIES = [
+    ["straße", "STRASSE", "Straße", "STRAẞE", "strasse", "ß", "ẞ", "ss", "SS"],
+    ["ſ", "s", "S", "ſtop", "STOP", "stop"],
+    ["ς", "Σ", "σ", "ΟΔΟΣ", "οδος", "οδοσ", "Οδός", "ΣΑΣ", "σας", "σασ"],
+    ["İ", "ı", "i", "I", "i̇", "İstanbul", "istanbul", "ISTANBUL", "ıstanbul", "i̇stanbul"],
+    ["ﬁ", "fi", "FI", "ﬂ", "fl", "FL", "ﬀ", "ff", "FF", "oﬃce", "OFFICE", "office"],
+    ["ǅ", "ǆ", "Ǆ", "dž", "DŽ"],
+    ["ŉ", "ʼn", "ʼN"],
+    ["\u212a", "k", "K", "\u212aelvin", "kelvin", "KELVIN"],
+    ["\u212b", "å", "Å", "\u212bngström", "ångström", "ÅNGSTRÖM"],
+]
+CASE_STRS = [x for fam in CASE_FAMILIES for x in fam]
 INTS = [0, 1, 2, 5, -3, 80, 443, 7]
 OPS = ["eq", "lt", "le", "gt", "ge", "contains", "startswith", "endswith"]
 FUNCS = {"eq": operator.eq, "lt": operator.lt, "le": operator.le, "gt": operator.gt, "ge": operator.ge,
@@ -64,16 +86,28 @@ REAL = {"eq": Q.eq, "lt": Q.lt, "le": Q.le, "gt": Q.gt, "ge": Q.ge, "contains": 
 REAL_I = {"eq": Q.ieq, "contains": Q.icontains, "startswith": Q.istartswith, "endswith": Q.iendswith}
 
 
-def model_lower(s):
-    """IV.Query.lower"""
-    out = []
-    for c in s:
-        n = ord(c)
-        if 65 <= n <= 90 or (192 <= n <= 222 and n != 215):
-            out.append(chr(n + 32))
-        else:
-            out.append(c)
-    return "".join(out)
+def str_leaves(x, out):
+    if isinstance(x, str):
+        out.add(x)
+    elif isinstance(x, (list, tuple)):
+        for y in x:
+            str_leaves(y, out)
+    elif isinstance(x, dict):
+        for y in x.values():
+            str_leaves(y, out)
+
+
+def lower_table(*parts):
+    """
+    str.lower as THIS interpreter computes it, for every string of the request that it changes: the model does not
+    lower-case anything itself (Unicode lower-casing is context dependent and may change the length), it looks the
+    strings up here; strings not listed are their own lower case.
+    """
+    found = set()
+    for x in parts:
+        str_leaves(x, found)
+    pairs = sorted((t, t.lower()) for t in found if not t.startswith("\ue000") and t.lower() != t)
+    return " ".join([str(len(pairs))] + ["%s=%s" % (enc(a), enc(b)) for a, b in pairs])
 
 
 # --------------------------------------------------------------------------- opaque callables (Drivers/C20.lean opqEnv)
@@ -195,7 +229,8 @@ def sel_line(case):
     steps = [str(len(case["steps"]))]
     for s in case["steps"]:
         steps += tok_step(s)
-    return "sel\t%s\t%s\t%s" % (start_tok(case["start"], case["docs"]), " ".join(docs), " ".join(steps))
+    return "sel\t%s\t%s\t%s\t%s" % (start_tok(case["start"], case["docs"]), " ".join(docs), " ".join(steps),
+                                   lower_table(case["docs"], case["steps"]))
 
 
 def node_paths(docs):
@@ -226,13 +261,28 @@ def ids_from_paths(out, docs):
     return ",".join(str(back.get(p, "?" + p)) for p in out.split(","))
 
 
+_ANSWERS = {}      # request line -> answer, filled by one driver call for many small requests (the corpus)
+
+
+def driver(lines):
+    if lines and all(l in _ANSWERS for l in lines):
+        return [_ANSWERS[l] for l in lines]
+    return run_driver("C20", lines)
+
+
+def precompute(lines):
+    lines = sorted(set(lines))
+    for l, a in zip(lines, run_driver("C20", lines)):
+        _ANSWERS[l] = a
+
+
 def model_sel(cases, start=None):
-    outs = run_driver("C20", [sel_line(c if start is None else dict(c, start=start)) for c in cases])
+    outs = driver([sel_line(c if start is None else dict(c, start=start)) for c in cases])
     return [ids_from_paths(o, c["docs"]) for o, c in zip(outs, cases)]
 
 
 def model_prog(progs):
-    outs = run_driver("C20", [prog_line(pr) for pr in progs])
+    outs = driver([prog_line(pr) for pr in progs])
     res = []
     for o, pr in zip(outs, progs):
         if o == "bad-op":
@@ -248,7 +298,7 @@ def model_prog(progs):
 
 
 def bool_line(case):
-    return "bool\t%s\t%s" % (" ".join(tok_bexp(case["b"])), tok_val(case["v"]))
+    return "bool\t%s\t%s\t%s" % (" ".join(tok_bexp(case["b"])), tok_val(case["v"]), lower_table(case["b"], case["v"]))
 
 
 # --------------------------------------------------------------------------- real objects
@@ -744,8 +794,12 @@ def impl_bool(case):
 
 # --------------------------------------------------------------------------- generators
 
-def gen_val(rng):
+def gen_val(rng, fam=None):
     r = rng.random()
+    if fam is not None and r < 0.5:
+        return rng.choice(fam)
+    if r < 0.12:
+        return rng.choice(CASE_STRS)
     if r < 0.6:
         return rng.choice(STRS)
     if r < 0.93:
@@ -753,7 +807,18 @@ def gen_val(rng):
     return None
 
 
-def gen_bexp(rng, depth):
+def case_family(names):
+    """the strings to draw predicate arguments / values from when the names come from a case family"""
+    strs = [n for n in names if isinstance(n, str)]
+    if any(n in CASE_STRS for n in strs):
+        for fam in CASE_FAMILIES:
+            if any(n in fam for n in strs):
+                return fam
+    return None
+
+
+def gen_bexp(rng, depth, fam=None):
+    """fam: a family of case variants; arguments (and, by the caller, the tested values) are then mostly drawn from it"""
     r = rng.random()
     if depth <= 0 or r < 0.35:
         k = rng.random()
@@ -761,26 +826,31 @@ def gen_bexp(rng, depth):
             return ["tt"]
         if k < 0.12:
             return ["ff"]
+        if fam is not None and k < 0.75:
+            op = rng.choice(OPS if rng.random() < 0.2 else ["eq", "contains", "startswith", "endswith"])
+            return ["pi" if rng.random() < 0.75 else "p", op, rng.choice(fam)]
         if k < 0.55:
             return ["p", rng.choice(OPS), gen_val(rng)]
         if k < 0.85:
-            return ["pi", rng.choice(OPS if rng.random() < 0.3 else ["eq", "contains", "startswith", "endswith"]), rng.choice(STRS)]
+            return ["pi", rng.choice(OPS if rng.random() < 0.3 else ["eq", "contains", "startswith", "endswith"]),
+                    rng.choice(STRS) if rng.random() < 0.85 else rng.choice(CASE_STRS)]
         return ["o", rng.randrange(3), rng.random() < 0.3]
     if r < 0.55:
-        return ["not", gen_bexp(rng, depth - 1)]
-    return [rng.choice(["and", "or"]), gen_bexp(rng, depth - 1), gen_bexp(rng, depth - 1)]
+        return ["not", gen_bexp(rng, depth - 1, fam)]
+    return [rng.choice(["and", "or"]), gen_bexp(rng, depth - 1, fam), gen_bexp(rng, depth - 1, fam)]
 
 
 def gen_nq(rng, names, attr=False):
     r = rng.random()
     if not attr and r < 0.12:
         return ["any"]
-    if r < 0.55:
+    fam = case_family(names)
+    if r < (0.55 if fam is None else 0.3):
         if attr:
-            return ["lit", gen_val(rng)]
+            return ["lit", gen_val(rng, fam)]
         return ["lit", rng.choice(names) if rng.random() < 0.9 else rng.choice(INTS)]
     if r < 0.9:
-        return ["b", gen_bexp(rng, rng.choice([0, 1, 1, 2, 3]))]
+        return ["b", gen_bexp(rng, rng.choice([0, 1, 1, 2, 3]), fam)]
     return ["f", rng.randrange(3)]
 
 
@@ -826,6 +896,10 @@ def gen_query(rng, names):
 def gen_forest(rng, max_nodes):
     """1-3 document tops; few distinct names, so that levels match and matched nodes nest"""
     names = rng.sample(NAMES, rng.choice([1, 2, 2, 3]))
+    fam = None
+    if rng.random() < 0.22:       # names and attribute values that are case variants of each other (ß/ẞ/SS, Σ/σ/ς, İ/ı/i, …)
+        fam = rng.choice(CASE_FAMILIES)
+        names = rng.sample(fam, min(len(fam), rng.choice([2, 3, 3])))
     budget = [rng.randint(3, max_nodes)]
     nid = [0]
 
@@ -837,7 +911,7 @@ def gen_forest(rng, max_nodes):
             name, attrs = (None if rng.random() < 0.8 else rng.choice(names)), []
         else:
             name = rng.choice(names) if rng.random() < 0.93 else rng.choice([None, 5, ""])
-            attrs = [gen_val(rng) for _ in range(rng.choice([0, 0, 1, 1, 1, 2, 3]))]
+            attrs = [gen_val(rng, fam) for _ in range(rng.choice([0, 0, 1, 1, 1, 2, 3]))]
         t = {"id": i, "name": name, "attrs": attrs, "children": []}
         kmax = 0 if depth >= 6 else rng.choice([0, 1, 2, 2, 3, 4]) if not top else rng.choice([1, 2, 3, 4])
         for _ in range(kmax):
@@ -1213,7 +1287,7 @@ def prog_line(prog):
     n_out = [str(len(prog["stmts"]))]
     for st in prog["stmts"]:
         n_out += tok_stmt(st, prog["docs"])
-    return "prog\t%s\t%s" % (" ".join(docs), " ".join(n_out))
+    return "prog\t%s\t%s\t%s" % (" ".join(docs), " ".join(n_out), lower_table(prog["docs"], prog["stmts"]))
 
 
 class _ProgSink(object):
@@ -1646,12 +1720,6 @@ def case_key(case):
     return json.dumps(case, sort_keys=True, ensure_ascii=True)
 
 
-def check_lower(chk):
-    bad = [s for s in STRS + NAMES + NGX_ARG if s.lower() != model_lower(s)]
-    if bad:
-        chk.tie_broken("lower-table", "str.lower differs from IV.Query.lower on %r" % bad, None)
-
-
 def witness_nested():
     """Lean: order_witness — A1[A2[B2], B1]; find('A','B')"""
     b2 = {"id": 3, "name": "B", "attrs": ["B2"], "children": []}
@@ -1700,16 +1768,30 @@ def run(chk):
                 "predicate (bool) and the case was not seen before" % max_nodes)
     chk.assumptions = [
         "opaque callables are a parameter of the theorems; the tie instantiates one concrete family (opq / opqEnv)",
-        "str.lower is modelled on ASCII + Latin-1 only; the generator alphabet stays inside it (checked per run)",
+        "str.lower is NOT modelled: it is a parameter (Env.lower) of every theorem; each driver request carries the "
+        "interpreter's s.lower() for every string of the request that it changes (lower_table), incl. strings whose "
+        "lower()/upper()/casefold() differ or change length",
         "Entry identity is modelled by position (path) in the forest; the harness tags real entries in a side table keyed by id(); "
         "values are None/int/str (no bool/float)",
     ]
     chk.lean()
-    check_lower(chk)
 
     # ---- corpus: regression of fix e053fd8 and the witnesses of the known findings
-    for fn in sorted(os.listdir(CORPUS)) if os.path.isdir(CORPUS) else []:
-        data = json.load(open(os.path.join(CORPUS, fn), encoding="utf-8"))
+    corpus = [(fn, json.load(open(os.path.join(CORPUS, fn), encoding="utf-8")))
+              for fn in (sorted(os.listdir(CORPUS)) if os.path.isdir(CORPUS) else [])]
+    lines = []
+    for fn, data in corpus:         # one driver start for the whole corpus
+        c = data["case"]
+        if data["kind"] == "prov":
+            lines += [sel_line(x) for x in prov_pipes(c)]
+        elif data["kind"] == "prog":
+            lines.append(prog_line(c))
+        elif data["kind"] == "bool":
+            lines.append(bool_line(c))
+        else:
+            lines.append(sel_line(c))
+    precompute(lines)
+    for fn, data in corpus:
         c = data["case"]
         chk.witnesses.append(fn)
         if data["kind"] == "prov":
@@ -1727,7 +1809,7 @@ def run(chk):
             chk.case(("corpus", fn), True)
         elif data["kind"] == "bool":
             t, cc = impl_bool(c)
-            m = run_driver("C20", [bool_line(c)])[0].split(",")
+            m = driver([bool_line(c)])[0].split(",")
             chk.compare("corpus-bool", [c], ["%s,%s" % (fmt(t), fmt(cc))], [",".join(m[:2])],
                         show=lambda x: {"kind": "bool", "case": x})
             chk.case(("corpus", fn), True)
@@ -1763,7 +1845,14 @@ def run(chk):
     for lo in range(0, n_bool, BATCH):
         cases, impl = [], []
         for _ in range(min(BATCH, n_bool - lo)):
-            c = {"b": gen_bexp(rng, rng.choice([0, 1, 2, 2, 3, 3, 4])), "v": gen_val(rng), "nary": rng.random() < 0.3}
+            fam = rng.choice(CASE_FAMILIES) if rng.random() < 0.35 else None
+            c = {"b": gen_bexp(rng, rng.choice([0, 1, 2, 2, 3, 3, 4]), fam), "v": gen_val(rng, fam), "nary": rng.random() < 0.3}
+            if fam is not None:
+                chk.count("bool:case-family")
+                if isinstance(c["v"], str) and c["v"].lower() != c["v"].casefold():
+                    chk.count("bool:value lower() != casefold()")
+                if isinstance(c["v"], str) and len(c["v"].lower()) != len(c["v"]):
+                    chk.count("bool:value lower() changes length")
             t, cc = impl_bool(c)
             cases.append(c)
             strict, nr = strict_ref(c["b"], c["v"]), non_raising(c["b"], c["v"])
@@ -1777,7 +1866,7 @@ def run(chk):
                 oracle_bool(chk, c, t, cc)
             else:
                 chk.failure("building / evaluating the expression raised %s" % t, {"kind": "bool", "case": c})
-        model = run_driver("C20", [bool_line(c) for c in cases])
+        model = driver([bool_line(c) for c in cases])
         chk.compare("boolean:test/to_pyfunc/reference", cases, impl, model, show=lambda c: {"kind": "bool", "case": c})
         if lo == 0:
             for c, i in list(zip(cases, impl))[5:8]:
@@ -1981,7 +2070,7 @@ def replay(data):
     elif kind == "bool":
         print("replaying boolean expression", json.dumps(c, ensure_ascii=False))
         t, cc = impl_bool(c)
-        m = run_driver("C20", [bool_line(c)])[0]
+        m = driver([bool_line(c)])[0]
         print("impl test()=%s to_pyfunc()()=%s | reference strict=%s nonraising=%s | model interp,compiled,evalC,nonRaising=%s" % (
             t, cc, fmt(strict_ref(c["b"], c["v"])), non_raising(c["b"], c["v"]), m))
         if isinstance(t, bool):
